@@ -277,6 +277,8 @@ func checkC04(c *Ctx) {
 	r.Rule("R04.9", "member grammar: in the member-list emitter every mode-feasible path from a member separator to the next element (or out of the function) writes a key, and every path from a key writes a value (the value switch, the timestamp printer or a value stringer), so no element is dropped after its separator")
 	r.Rule("R05.10", "(shared with C05) the message is handed on as given from the verbs to the encoder's message field")
 	r.Rule("R01.1", "(shared with C01) decodes to what was logged, the level included: every verb emits at the severity it gates on (R01.1/R01.2/R01.5: gate and emission agree)")
+	r.Rule("R11.1", "(shared with C11) a logger put into JSON mode prints JSON: the mode setters' effect tables")
+	r.Rule("R07.3", "(shared with C07) among equal keys the last one given wins: stable sort, consistent comparator")
 	r.Rule("R19.1", "(shared with C19) the record is the bytes the encoder appended: the write side of the formatting buffer (Write*, Grow, Truncate, Reset, Bytes and their helpers) is isomorphic to bytes.Buffer")
 	r.Rule("R15.3", "(shared with C15) attributes arriving through the log/slog handler keep key and value: each kind arm hands on the key and the value read with the accessor of its own kind, groups nested, LogValuers resolved")
 	r.Rule("R15.4", "(shared with C15) every attribute with its own value: handlers derived for log/slog own a fresh copy of the bound field list (siblings do not overwrite each other's attributes)")
@@ -320,6 +322,10 @@ func checkC04(c *Ctx) {
 		c04Elements(c, p, m, mr)
 		c04BuiltinFirst(c, p, m)
 		c04KeysAsGiven(c, p, m, mr)
+		timeTextQuoted(c, p, m, jsonMode, "R04.2")
+		bufferAppendOnly(c, p, m, "R04.10")
+		c11Transitions(c, p, m)
+		c07Sort(c, p, m)
 		c01Gates(c, p, m, tags)
 		c19WriteSide(c, p)
 		c15Handler(c, p, m)
